@@ -16,6 +16,15 @@ theorem kill_some {d : Doc} {o : Option Ticket} {t : Ticket} {e' : Elem} (h : ki
     | some e => simp only [hd, Option.map_some, Option.some.injEq] at h; subst h; exact ⟨e, rfl, rfl, rfl⟩
   · exact ⟨e', h, rfl, rfl⟩
 
+theorem kill_live {d : Doc} {o : Option Ticket} {t : Ticket} {e' : Elem} (h : kill d o t = some e')
+    (hr : e'.removed = false) : d t = some e' := by
+  unfold kill at h
+  split at h
+  · cases hd : d t with
+    | none => simp [hd] at h
+    | some e => simp only [hd, Option.map_some, Option.some.injEq] at h; subst h; simp at hr
+  · exact h
+
 theorem kill_isSome (d : Doc) (o : Option Ticket) (t : Ticket) : (kill d o t).isSome = (d t).isSome := by
   unfold kill; split <;> simp
 
@@ -37,12 +46,10 @@ theorem WF_kill {H : Home} {d : Doc} (w : WF H d) (o : Option Ticket) : WF H (ki
   · intro q qe keys m h hb
     obtain ⟨e, hd, hbe, _⟩ := kill_some h
     exact w.objSorted _ _ _ _ hd (hbe ▸ hb)
-  · intro q qe keys m k mm h hb hm
-    obtain ⟨e, hd, hbe, _⟩ := kill_some h
-    exact w.objMem _ _ _ _ _ _ hd (hbe ▸ hb) hm
-  · intro q qe nodes mv n c h hb hn hc
-    obtain ⟨e, hd, hbe, _⟩ := kill_some h
-    exact w.arrMem _ _ _ _ _ _ hd (hbe ▸ hb) hn hc
+  · intro q qe keys m k mm h hr hb hm
+    exact w.objMem _ _ _ _ _ _ (kill_live h hr) hr hb hm
+  · intro q qe nodes mv n c h hr hb hn hc
+    exact w.arrMem _ _ _ _ _ _ (kill_live h hr) hr hb hn hc
 
 theorem Bounded_kill {d : Doc} {L : Int} (bd : Bounded d L) (o : Option Ticket) : Bounded (kill d o) L := by
   constructor
@@ -94,7 +101,7 @@ theorem absNode_kill (w : WF H d) (g : GoodRemove H tw d p u f) (hd : d p = some
   obtain ⟨ce, hce, hcr, hcl, _⟩ := absNode_leaf hbu hbl
   have hpu : p ≠ u := by
     intro h; subst h; rw [hd] at hce; injection hce with hce; subst hce; simp [hb, leafBody] at hcl
-  obtain ⟨_, hparu, _⟩ := fk_home w hd hb hf g.hk
+  obtain ⟨_, hparu, _⟩ := fk_home w hd hr hb hf g.hk
   funext t
   simp only [aremove, g.hp]
   by_cases h1 : t = u
@@ -124,7 +131,7 @@ theorem absNode_kill (w : WF H d) (g : GoodRemove H tw d p u f) (hd : d p = some
         | some mm =>
           have : mm.child ≠ u := by
             intro h
-            have := (w.objMem _ _ _ _ _ _ hd hb hm).2.1
+            have := (w.objMem _ _ _ _ _ _ hd hr hb hm).2.1
             rw [h] at this; exact hk this.symm
           simp [live_kill, this]
     · simp only [h2, if_false]
@@ -134,18 +141,22 @@ theorem absNode_kill (w : WF H d) (g : GoodRemove H tw d p u f) (hd : d p = some
       | none => rfl
       | some e =>
         simp only []
-        congr 2
+        cases hre : e.removed with
+        | true => rfl
+        | false =>
+        simp only [Bool.false_eq_true, if_false]
+        congr 1
         apply absBody_congr
         · intro keys' m' k' mm hbe hmm
           have : mm.child ≠ u := by
             intro h
-            have := (w.objMem _ _ _ _ _ _ hdt' hbe hmm).2.2
+            have := (w.objMem _ _ _ _ _ _ hdt' hre hbe hmm).2.2
             rw [h, hparu] at this; injection this with this; exact h2 this.symm
           simp [live_kill, this]
         · intro nodes mv n c hbe hn hc
           have : c ≠ u := by
             intro h
-            have := w.arrMem _ _ _ _ _ _ hdt' hbe hn hc
+            have := w.arrMem _ _ _ _ _ _ hdt' hre hbe hn hc
             rw [h, hparu] at this; injection this with this; exact h2 this.symm
           simp [live_kill, this]
 
@@ -170,29 +181,30 @@ def removeRev (H : Home) (d : Doc) (p u ts : Ticket) : UOp :=
   | some ce => .set p (H.key u) { id := u, removed := false, body := ce.body, sub := [] } ts
   | none => .remove p u ts
 
-theorem keyOf_home (w : WF H d) (hd : d p = some pe) (hb : pe.body = .obj keys member)
+theorem keyOf_home (w : WF H d) (hd : d p = some pe) (hr : pe.removed = false) (hb : pe.body = .obj keys member)
     {mm : Member} (hm : member (H.key u) = some mm) (hc : mm.child = u) :
     keyOf keys member u = some (H.key u) := by
   unfold keyOf
   cases hfind : keys.find? (fun k => memberChild member k == some u) with
   | none =>
     rw [List.find?_eq_none] at hfind
-    have := hfind (H.key u) (w.objMem _ _ _ _ _ _ hd hb hm).1
+    have := hfind (H.key u) (w.objMem _ _ _ _ _ _ hd hr hb hm).1
     simp [memberChild, hm, hc] at this
   | some k' =>
     have := List.find?_some hfind
     simp only [memberChild, beq_iff_eq, Option.map_eq_some_iff] at this
     obtain ⟨m', hm', hc'⟩ := this
-    have := (w.objMem _ _ _ _ _ _ hd hb hm').2.1
+    have := (w.objMem _ _ _ _ _ _ hd hr hb hm').2.1
     rw [hc'] at this; rw [this]
 
 theorem uexecute_remove {L : Int} {src : Source} (w : WF H d) (bd : Bounded d L) (hL : L < ts.lamport)
     (g : GoodRemove H tw d p u f) (hsrc : src.needsReverse = true)
-    (hd : d p = some pe) (hb : pe.body = .obj keys member) (hf : f = liveMember d member) :
+    (hd : d p = some pe) (hr : pe.removed = false) (hb : pe.body = .obj keys member)
+    (hf : f = liveMember d member) :
     uexecute d tw src (.remove p u ts) = .ok (kill d (some u), some (removeRev H d p u ts)) := by
   obtain ⟨b, hbu, hbl⟩ := g.hleaf
   obtain ⟨ce, hce, hcr, hcl, _⟩ := absNode_leaf hbu hbl
-  obtain ⟨_, hparu, _⟩ := fk_home w hd hb hf g.hk
+  obtain ⟨_, hparu, _⟩ := fk_home w hd hr hb hf g.hk
   have hcont : isContainer d p = true := by simp [isContainer, hd, hb]
   have horph : orphaned d tw orphanFuel u = false := by
     have h63 : orphaned d tw 63 p = false := orphaned_mono d tw 63 p g.horph
@@ -202,7 +214,7 @@ theorem uexecute_remove {L : Int} {src : Source} (w : WF H d) (bd : Bounded d L)
     subst hf
     obtain ⟨_, mm, hmm, hmc⟩ := liveMember_some g.hk
     unfold reverseRemove removeRev
-    simp only [capture_leaf hce hcl, hd, hb, keyOf_home w hd hb hmm hmc, hce, hcr]
+    simp only [capture_leaf hce hcl, hd, hb, keyOf_home w hd hr hb hmm hmc, hce, hcr]
   have happ : applyRemove d p u ts = .ok (kill d (some u)) := by
     unfold applyRemove
     have : isChildOf d u p = true := by simp [isChildOf, hce, w.par _ _ hce, hparu]
@@ -285,16 +297,20 @@ theorem WF_setLeaf (w : WF H d) (hd : d c = some ce) (hl : leafBody ce.body = tr
     rcases hbe with hbe | hbe
     · exact w.objSorted _ _ _ _ hdt (hbe ▸ hb)
     · simp [hb, leafBody] at hbe
-  · intro q qe keys m k mm h hb hm
-    obtain ⟨e, hdt, _, hbe⟩ := setLeaf_some hd hl hl' h
-    rcases hbe with hbe | hbe
-    · exact w.objMem _ _ _ _ _ _ hdt (hbe ▸ hb) hm
-    · simp [hb, leafBody] at hbe
-  · intro q qe nodes mv n x h hb hn hx
-    obtain ⟨e, hdt, _, hbe⟩ := setLeaf_some hd hl hl' h
-    rcases hbe with hbe | hbe
-    · exact w.arrMem _ _ _ _ _ _ hdt (hbe ▸ hb) hn hx
-    · simp [hb, leafBody] at hbe
+  · intro q qe keys m k mm h hr hb hm
+    rw [set_apply] at h
+    by_cases hq : q = c
+    · simp only [hq, if_true, Option.some.injEq] at h
+      subst h; simp only [] at hb; rw [hb] at hl'; simp [leafBody] at hl'
+    · simp only [hq, if_false] at h
+      exact w.objMem _ _ _ _ _ _ h hr hb hm
+  · intro q qe nodes mv n x h hr hb hn hx
+    rw [set_apply] at h
+    by_cases hq : q = c
+    · simp only [hq, if_true, Option.some.injEq] at h
+      subst h; simp only [] at hb; rw [hb] at hl'; simp [leafBody] at hl'
+    · simp only [hq, if_false] at h
+      exact w.arrMem _ _ _ _ _ _ h hr hb hn hx
 
 theorem Bounded_setLeaf {L : Int} (bd : Bounded d L) (hd : d c = some ce) (hl : leafBody ce.body = true)
     (hl' : leafBody b' = true) : Bounded (d.set c { ce with body := b' }) L := by
